@@ -1192,6 +1192,22 @@ def GateWeak (mb : MB) : Prop :=
   ∃ sub ∈ mb.subs, sub.canDrive = true ∧ ∃ x, sub.waitingFor = some x ∧
     (hasNum mb.heap x = false ∨ ∃ e ∈ mb.heap, e.1 < x)
 
+/-- decidable form of `GateOk` -/
+def gateOkB (mb : MB) : Bool :=
+  mb.subs.any fun sub => sub.canDrive && (match sub.waitingFor with
+    | some x => !hasNum mb.heap x
+    | none => false)
+
+theorem gateOkB_iff (mb : MB) : gateOkB mb = true ↔ GateOk mb := by
+  simp only [gateOkB, GateOk, List.any_eq_true, Bool.and_eq_true]
+  constructor
+  · rintro ⟨sub, hm, hd, hw⟩
+    cases hx : sub.waitingFor with
+    | none => simp [hx] at hw
+    | some x => exact ⟨sub, hm, hd, x, hx, by simpa [hx] using hw⟩
+  · rintro ⟨sub, hm, hd, x, hx, hn⟩
+    exact ⟨sub, hm, hd, by simp [hx, hn]⟩
+
 theorem canFetch_gateOk {mb : MB} (hc : mb.canFetch = true) (hk : mb.killed = false) (hr : mb.gateRule = .hasMsg) :
     GateOk mb := by
   simp only [MB.canFetch, hk, Bool.false_eq_true, if_false] at hc
